@@ -6,7 +6,7 @@ From Coq Require Import List Arith.
 From DuneV Require Import C09_Model C09_Spec.
 Extraction Language OCaml.
 Extraction "c09_model.ml"
-  c09_plan c09_nested_lanes
+  c09_plan c09_nested_lanes c09_traits c09_ty_hasnan
   c09_s_solve c09_s_invert c09_s_det c09_v_solve c09_v_invert c09_v_det c09_v_trace c09_v_init
   c09_lane_vec c09_lane_mat c09_v_mv c09_s_mv c09_v_infnorm c09_s_infnorm
   c09_spec_solve c09_spec_invert c09_spec_det.
